@@ -5,8 +5,9 @@ the base64 alphabet - discharged as a z3 regular-expression query in C20).  File
 
 class Content(object):
     """opaque file content with an identity; its length lives in the fs model"""
-    def __init__(self, tag):
+    def __init__(self, tag, size=None):
         self.tag = tag
+        self.size = size        # length in bytes (may be a symbolic quiet number); read through model_len()
 
     def __eq__(self, o):
         return isinstance(o, Content) and o.tag == self.tag
@@ -55,3 +56,26 @@ class B64(object):
         if not isinstance(e, Encoded):
             raise ValueError('not base64 (model)')
         return e.content
+
+
+class Mixed(object):
+    """what a file holds after new bytes were written over the head of longer old content without truncation"""
+    def __init__(self, new, old):
+        self.new = new
+        self.old = old
+
+    def __eq__(self, o):
+        return False
+
+    def __ne__(self, o):
+        return True
+
+    def __hash__(self):
+        return 8
+
+
+def model_len(x):
+    """len() for the modules under test: opaque contents know their (symbolic) size"""
+    if isinstance(x, Content) and x.size is not None:
+        return x.size
+    return len(x)
